@@ -35,6 +35,8 @@ type RecSum struct {
 	RefersURI string `json:"refers_uri"` // revisit
 	ReqLine   string `json:"req_line"`   // request: request line
 	ReqHost   string `json:"req_host"`   // request: Host header
+	// revisit, filled in after Stop: entity SHA-1s of the response records stored under RefersURI
+	Refs []string `json:"refs,omitempty"`
 }
 
 type fileState struct {
